@@ -7,7 +7,8 @@ RULE = ("the operator read off the real ResidualGive / ResidualTake with one-hot
 
 
 def run(ctx):
-    ctx.prove()
+    # C06d: "the line blocks the smoothers factorise inherit both properties" for the matrices the code-level smoother model stores
+    ctx.prove(extra_modules=["GMGProofs.Props.C06d"])
     h = ctx.build_harness("h_ops")
     if ctx.tier == "quick":
         ctx.pipe([h, "matrix", "24", "7", "12"], "matrix")
@@ -16,4 +17,7 @@ def run(ctx):
         ctx.pipe([h, "matrix", "20", "9", "12"], "matrix", label="matrix-9x12")
     ctx.assumptions += ["positive definiteness is PROVED in Dirichlet mode (C05.pd_dirichlet) and symmetry in both modes; across the "
                         "origin no nodal argument exists (C05.psd_across_fails is a machine-checked counterexample under pointwise "
-                        "ellipticity alone), so that part is measured per generated case by the exact LDL^T"]
+                        "ellipticity alone), so that part is measured per generated case by the exact LDL^T",
+                        "line blocks: C06d.circle_matrix_spd_dirichlet / radial_matrix_spd_dirichlet prove SPD (in the sense the tridiagonal "
+                        "solver theorems of C14 need) for the stored line matrices of GMGModel/SmootherCode.lean in Dirichlet mode; those "
+                        "matrices are tied to the real SmootherGive / SmootherTake objects entry by entry in the C06 check"]
